@@ -485,6 +485,78 @@ def run_many_case(ctx, rng, scratch):
     return True
 
 
+def run_links_and_timestamps_case(ctx, rng, scratch):
+    """Destination and source states that involve symbolic links and time stamps: a link (dangling, or to a directory with stale
+    content) where the library's directory will be; links at the top level of an all_files source; a listed file rewritten with the
+    same size and the same modification time between two saves."""
+    out = scratch.dir("out")
+    srcdir = os.path.join(scratch.dir("src"), "s")
+    files = rng.sample(["a.js", "b c.js", "sub/n.js", "x.css"], rng.randint(1, 3))
+    make_source(srcdir, files, extra=False)
+    scenario = rng.choice(["dangling_link_at_target", "link_to_stale_dir_at_target", "links_in_all_files_source", "same_size_same_mtime_rewrite"])
+    all_files = scenario == "links_in_all_files_source"
+    iv = rng.random() < 0.6
+    dep = ht.HTMLDependency("lnk", "1.0", source={"subdir": srcdir}, script=[{"src": f} for f in files if f.endswith(".js")],
+                            stylesheet=[{"href": f} for f in files if f.endswith(".css")], all_files=all_files)
+    target = os.path.join(out, "lib", urls.dep_dir("lnk", "1.0", iv))
+    wit = {"scenario": scenario, "files": files, "include_version": iv}
+    ctx.count("monitor.link_and_timestamp_scenarios")
+    ctx.state("link_and_timestamp_scenarios", scenario)
+    if scenario == "dangling_link_at_target":
+        os.makedirs(os.path.dirname(target))
+        os.symlink(os.path.join(scratch.dir("gone"), "purged cache"), target)
+    elif scenario == "link_to_stale_dir_at_target":
+        elsewhere = os.path.join(scratch.dir("else"), "real dir")
+        os.makedirs(elsewhere)
+        with open(os.path.join(elsewhere, "stale.txt"), "w") as fh:
+            fh.write("stale")
+        os.makedirs(os.path.dirname(target))
+        os.symlink(elsewhere, target)
+    elif all_files:
+        shared = os.path.join(os.path.dirname(srcdir), "shared fonts")
+        os.makedirs(shared)
+        with open(os.path.join(shared, "f.woff"), "wb") as fh:
+            fh.write(b"font bytes")
+        os.symlink(os.path.join(srcdir, files[0]), os.path.join(srcdir, "latest-link.js"))
+        os.symlink(shared, os.path.join(srcdir, "fonts"))
+    file = os.path.join(out, "index.html")
+    doc = ht.HTMLDocument(ht.div("t", dep))
+
+    def verify(tag):
+        for f in files + (["latest-link.js", "fonts/f.woff"] if all_files else []):
+            p = os.path.join(target, f)
+            if not os.path.isfile(p) or sha(p) != sha(os.path.join(srcdir, f)):
+                ctx.violation("copied-file-differs", "%s (%s): %r is missing from the copied library or differs from its source" % (scenario, tag, f), wit)
+                return False
+        if os.path.exists(os.path.join(target, "stale.txt")):
+            ctx.violation("stale-files-survive", "%s: stale content of the directory the link points to survived" % scenario, wit)
+            return False
+        return True
+
+    try:
+        doc.save_html(file, libdir="lib", include_version=iv)
+    except Exception as e:
+        ctx.violation("copy-raises", "%s: save_html raised %r" % (scenario, e), wit)
+        return False
+    if not verify("first save"):
+        return False
+    if scenario == "same_size_same_mtime_rewrite":
+        p = os.path.join(srcdir, files[0])
+        st = os.stat(p)
+        with open(p, "rb") as fh:
+            old = fh.read()
+        with open(p, "wb") as fh:
+            fh.write(bytes((b ^ 1) if chr(b).isalpha() else b for b in old))       # other bytes, same length
+        os.utime(p, ns=(st.st_atime_ns, st.st_mtime_ns))
+        try:
+            doc.save_html(file, libdir="lib", include_version=iv)
+        except Exception as e:
+            ctx.violation("copy-raises", "%s: second save raised %r" % (scenario, e), wit)
+            return False
+        return verify("second save")
+    return True
+
+
 def replay(ctx, w):
     scratch = Scratch()
     try:
@@ -537,6 +609,9 @@ def run(ctx):
             if rng.random() < 0.15:
                 ctx.guard(run_siblings_case, ctx, rng, scratch, witness={"scenario": "sibling dependencies"})
                 ctx.case(("siblings", scratch.n), nontrivial=True)
+            if rng.random() < 0.12:
+                ctx.guard(run_links_and_timestamps_case, ctx, rng, scratch, witness={"scenario": "links and time stamps"})
+                ctx.case(("links", scratch.n), nontrivial=True)
             if rng.random() < 0.08:
                 ctx.guard(run_many_case, ctx, rng, scratch, witness={"scenario": "many dependencies"})
                 ctx.case(("many", scratch.n), nontrivial=True)
